@@ -15,18 +15,25 @@ from typing import Dict, List, Optional, Tuple
 
 STUB = r'''#!/usr/bin/bash
 # stand-in for every external tool the runner scripts invoke: logs, consults the fault plan, minimal faithful effect
-name=$(/usr/bin/basename "$0")
+name="${0##*/}"
 CTL="__CTL__"
-n=$(( $(/usr/bin/cat "$CTL/count" 2>/dev/null || echo 0) + 1 ))
-echo $n > "$CTL/count"
-printf '%s\t%s\t%s\t%s\n' "$n" "$name" "$PWD" "$*" >> "$CTL/log"
-if [ "$n" = "$(/usr/bin/cat "$CTL/fault" 2>/dev/null)" ]; then
-  printf 'FAULT\t%s\t%s\n' "$n" "$name" >> "$CTL/log"
-  exit 97
+# per-tool occurrence counters under a lock: commands of a pipeline run concurrently, so a global index would be racy
+exec 9>"$CTL/lock"
+/usr/bin/flock 9
+n=0; [ -f "$CTL/count" ] && n=$(<"$CTL/count"); n=$((n + 1)); echo $n > "$CTL/count"
+k=0; [ -f "$CTL/count.$name" ] && k=$(<"$CTL/count.$name"); k=$((k + 1)); echo $k > "$CTL/count.$name"
+printf '%s\t%s\t%s\t%s\t%s\n' "$n" "$name" "$PWD" "$k" "$*" >> "$CTL/log"
+hit=0
+plan=""; [ -f "$CTL/fault" ] && plan=$(<"$CTL/fault")
+if [ "$name:$k" = "$plan" ]; then
+  printf 'FAULT\t%s\t%s\n' "$n" "$name:$k" >> "$CTL/log"
+  hit=1
 fi
-nonce=$(/usr/bin/cat "$CTL/nonce" 2>/dev/null)
+exec 9>&-
+if [ $hit = 1 ]; then exit 97; fi
+nonce=""; [ -f "$CTL/nonce" ] && nonce=$(<"$CTL/nonce")
 case "$name" in
-  mkdir|cp|cat|chmod|rm|dirname|xrdcp)
+  mkdir|cp|cat|chmod|rm|dirname|xrdcp|tee|mv|ls|touch|ln|head|tail|sed|grep|date|sleep|basename|true|false|test|env|tr|cut|sort|wc)
     if [ "$name" = xrdcp ]; then exec /usr/bin/cp "$@"; fi
     exec /usr/bin/$name "$@" ;;
   cmake)
@@ -70,7 +77,8 @@ case "$name" in
 esac
 '''
 
-TOOLS = ["mkdir", "cp", "cat", "chmod", "rm", "dirname", "cmake", "make", "python", "sudo", "mkedanlzr", "scram", "cmsRun", "root", "xrdcp"]
+TOOLS = ["mkdir", "cp", "cat", "chmod", "rm", "dirname", "cmake", "make", "python", "sudo", "mkedanlzr", "scram", "cmsRun", "root", "xrdcp",
+         "tee", "mv", "ls", "touch", "ln", "head", "tail", "sed", "grep", "date", "sleep", "basename", "true", "false", "test", "env", "tr", "cut", "sort", "wc"]
 
 _NS_OK = None
 
@@ -146,6 +154,8 @@ class Sandbox:
         nonce = f"N{self.ninv}-{os.getpid()}-{id(self) % 100000}"
         ctl = self.root / "ctl"
         (ctl / "count").write_text("0\n")
+        for f in ctl.glob("count.*"):
+            f.unlink()
         (ctl / "nonce").write_text(nonce + "\n")
         for f in ("fault", "srcfault", "log"):
             if (ctl / f).exists():
